@@ -181,6 +181,22 @@ def _r4(run, prog):
                  'the mask is then 1 outside the polygon' % (norm(bad[0])[:80], vtx))
     else:
         run.ok('C13-R4', 'PolygonMask2D triangles', 'triangulate2d(%s) is the only source' % vtx)
+    # the polygon that is triangulated is the polygon that was given: the vertex array is only converted, never sliced or filtered
+    run.subject('C13-R4')
+    pv = init0.args.args[1].arg if len(init0.args.args) > 1 else None
+    vname = m.args[0].id if isinstance(m.args[0], ast.Name) else None
+    vdefs = [v for t, v, st in stores(init) if isinstance(t, ast.Name) and t.id == vname] if vname else []
+    conv = ('np.array', 'np.asarray', 'np.ascontiguousarray', 'numpy.array', 'np.float64')
+    cut = [v for v in vdefs if not (isinstance(v, ast.Call) and dotted(v.func) in conv and v.args and norm(v.args[0]) in (pv, vname))]
+    dropped = [v for v in cut if isinstance(v, ast.Subscript) or (isinstance(v, ast.Call) and dotted(v.func) in ('np.delete', 'np.unique', 'np.compress'))]
+    if dropped:
+        run.fail('C13-R4', K + 'vertices-dropped', ci.mod.relpath, getattr(dropped[0], 'lineno', init0.lineno),
+                 'PolygonMask2D replaces the vertex array by %s for some polygons: a vertex of the polygon that was given is removed, so the mask is not '
+                 'the point-in-polygon test of that polygon' % norm(dropped[0])[:60])
+    elif cut:
+        run.undecided('C13-R4', 'PolygonMask2D vertices', 'vertex array redefined as %s' % norm(cut[0])[:50])
+    else:
+        run.ok('C13-R4', 'PolygonMask2D vertices', 'the given vertices, converted to an array only', sample=False)
     run.subject('C13-R4')
     kws = {k.arg: norm(k.value) for k in m.keywords}
     data = m.args[2]
@@ -200,6 +216,7 @@ class Iv:
     """Interval in units of the period p > 0: (lo, hi) with closedness flags."""
 
     def __init__(self, lo, hi, lc, hc):
+        # a very large finite bound stands for 'unbounded' (every comparison of the analysed code is with 0 or one period)
         self.lo, self.hi, self.lc, self.hc = Fraction(lo), Fraction(hi), lc, hc
 
     def __repr__(self):
@@ -253,6 +270,29 @@ def _r1(run, prog):
         if isinstance(test, ast.UnaryOp) and isinstance(test.op, ast.Not):
             r_ = refine(test.operand, env)
             return (r_[1], r_[0]) if r_ is not None else None
+        if isinstance(test, ast.BoolOp):
+            # or: true side = hull of the disjuncts' true sides, false side = all disjuncts false in turn (and dually for and)
+            is_or = isinstance(test.op, ast.Or)
+            seq, hull_envs = dict(env), []
+            for v_ in test.values:
+                r_ = refine(v_, seq)
+                if r_ is None:
+                    return None
+                one, other = (r_[0], r_[1]) if is_or else (r_[1], r_[0])
+                hull_envs.append(one)
+                seq = other
+            hull = dict(hull_envs[0])
+            for e_ in hull_envs[1:]:
+                for k_ in set(hull) | set(e_):
+                    va, vb = hull.get(k_), e_.get(k_)
+                    if isinstance(va, Iv) and isinstance(vb, Iv):
+                        lo, hi = min(va.lo, vb.lo), max(va.hi, vb.hi)
+                        lc = (va.lc if va.lo == lo else False) or (vb.lc if vb.lo == lo else False)
+                        hc = (va.hc if va.hi == hi else False) or (vb.hc if vb.hi == hi else False)
+                        hull[k_] = Iv(lo, hi, lc, hc)
+                    elif va is not vb:
+                        hull[k_] = None
+            return (hull, seq) if is_or else (seq, hull)
         if isinstance(test, ast.Compare) and len(test.ops) == 1 and isinstance(test.comparators[0], ast.Name) and not isinstance(test.left, ast.Name):
             # constant on the left: 0 > v  ==  v < 0
             flip = {ast.Lt: ast.Gt, ast.Gt: ast.Lt, ast.LtE: ast.GtE, ast.GtE: ast.LtE}
@@ -347,7 +387,8 @@ def _r1(run, prog):
                 undec.append(st)
         return env
 
-    block(fn.body, {x: None})
+    INF = 10 ** 30
+    block(fn.body, {x: Iv(-INF, INF, False, False)})       # the argument is any real number (in units of the period)
     if not results:
         run.undecided('C13-R1', 'remainder', 'no return path could be interpreted')
     for iv, node in results:
@@ -737,6 +778,11 @@ _CY = M + 'transform/cylindrical.pyx'
 _PE = M + 'transform/periodic.pyx'
 _SA = M + 'samplers.pyx'
 MUTANTS = [
+    dict(name='closing-vertex-dropped-by-tolerance', file='cherab/core/math/mask.pyx',
+         find="        # triangulate polygon\n", replace="        if vertices.shape[0] > 3 and np.allclose(vertices[0], vertices[-1]):\n            vertices = vertices[:-1]\n        # triangulate polygon\n", expect='C13-R4'),
+    dict(name='remainder-fast-path-includes-the-period', file=PXD,
+         find="    x1 = fmod(x1, x2)\n    if x1 < 0:\n        x1 += x2\n        # a tiny negative remainder plus the period rounds to the period itself\n        if x1 >= x2:\n            x1 = 0\n    return x1",
+         replace="    if x1 < 0 or x1 > x2:\n        x1 = fmod(x1, x2)\n        if x1 < 0:\n            x1 += x2\n            if x1 >= x2:\n                x1 = 0\n    return x1", expect='C13-R1'),
     dict(name='D15-reintroduced', file=PXD, find="    if x1 < 0:\n        x1 += x2\n        # a tiny negative remainder plus the period rounds to the period itself\n        if x1 >= x2:\n            x1 = 0\n    return x1",
          replace="    return x1 + x2 if (x1 < 0) else x1", expect='C13-R1'),
     dict(name='remainder-guard-strict', file=PXD, find="        if x1 >= x2:\n            x1 = 0", replace="        if x1 > x2:\n            x1 = 0", expect='C13-R1'),
@@ -754,6 +800,9 @@ MUTANTS = [
     dict(name='ctor-miswires-bounds', file=_CL, find="        self._min = min\n        self._max = max", replace="        self._min = max\n        self._max = min", occurrence=1, of=3, expect='C13-R2'),
 ]
 TWINS = [
+    dict(name='remainder-fast-path-inside-the-base-interval', file=PXD,
+         find="    x1 = fmod(x1, x2)\n    if x1 < 0:\n        x1 += x2\n        # a tiny negative remainder plus the period rounds to the period itself\n        if x1 >= x2:\n            x1 = 0\n    return x1",
+         replace="    if x1 < 0 or x1 >= x2:\n        x1 = fmod(x1, x2)\n        if x1 < 0:\n            x1 += x2\n            if x1 >= x2:\n                x1 = 0\n    return x1"),
     dict(name='guarded-hand-written-rotation', patch='sa/patches/c13_guarded_hand_rotation.diff'),
     dict(name='square-spelled-as-power', file=_MP, find="        return self.function2d.evaluate(sqrt(x*x + y*y), z)", replace="        r = sqrt(y**2 + x**2)\n        return self.function2d.evaluate(r, z)"),
     dict(name='degrees-reordered', file=_CY, find="rotate_z(phi / M_PI * 180)", replace="rotate_z(180 * phi / M_PI)"),
